@@ -1,34 +1,643 @@
-// C13: pstm_* big-integer arithmetic vs GMP (differential oracle) + algebraic cross-checks.
+// C13: pstm_* big-integer arithmetic is mathematically exact.
+//
+// Differential test of the whole pstm_* API (crypto/math/pstm*.c) against GMP, plus algebraic
+// cross-checks that do not involve GMP, plus the structural invariant of pstm_int after every call.
+//
+// Input domains (derived from the function comments and from every in-tree caller, see the table
+// in reg.py / the comments at each op_* function):
+//   * results are kept <= PSTM_MAX_SIZE-2 digits so the exact result is always representable;
+//   * pstm_sub_s: |a| >= |b|, unsigned;  pstm_sqr_comba / montgomery_* / exptmod: non-negative;
+//   * Montgomery functions: odd modulus >= 3, reduce input < m*R and alloc >= m.used+1;
+//   * pstm_exptmod: P odd with exactly 512/1024/1536/2048/3072/4096 bits, 0 < X < P;
+//   * pstm_mod / mulmod / invmod: modulus > 0;  invmod "must succeed" only for 0 < a < b, gcd = 1 and
+//     bits(a)+bits(b) <= 4096 (the fast path has a 4096-iteration sanity limit);
+//   * negative operands of div/div_2/div_2d: truncating or flooring quotient both accepted
+//     (the documentation only promises q*b + r = a).
+// Outside these domains an error return is accepted (and counted); a success return is still
+// compared with the exact value where the mathematical meaning is unambiguous.
 #include "vf.h"
 #include <gmp.h>
+#include <string>
+#include <vector>
 extern "C" {
 #include "crypto/cryptoApi.h"
 }
 using namespace vf;
 
-static void prop(Tape &t, Ctx &c) {
-    uint8_t a[64], b[64];
-    size_t la = t.range(0, 64), lb = t.range(0, 64);
-    t.bytes(a, la); t.bytes(b, lb);
-    pstm_int A, B, C;
-    VF_CHECK(pstm_init_for_read_unsigned_bin(NULL, &A, la ? la : 1) == PSTM_OKAY, "init", "init");
-    VF_CHECK(pstm_init_for_read_unsigned_bin(NULL, &B, lb ? lb : 1) == PSTM_OKAY, "init", "init");
-    pstm_read_unsigned_bin(&A, a, la); pstm_read_unsigned_bin(&B, b, lb);
-    pstm_init(NULL, &C);
-    int rc = pstm_add(&A, &B, &C);
-    mpz_t ga, gb, gc; mpz_inits(ga, gb, gc, NULL);
-    mpz_import(ga, la, 1, 1, 1, 0, a); mpz_import(gb, lb, 1, 1, 1, 0, b);
-    mpz_add(gc, ga, gb);
-    uint8_t out[200]; memset(out, 0, sizeof out);
-    size_t n = pstm_unsigned_bin_size(&C);
-    pstm_to_unsigned_bin(NULL, &C, out);
-    mpz_t gr; mpz_init(gr); mpz_import(gr, n, 1, 1, 1, 0, out);
-    bool ok = rc == PSTM_OKAY && mpz_cmp(gr, gc) == 0;
-    mpz_clears(ga, gb, gc, gr, NULL);
-    pstm_clear(&A); pstm_clear(&B); pstm_clear(&C);
-    if (la > 8 && lb > 8) c.nontrivial(fmt("add:%zu:%zu", la / 8, lb / 8));
-    c.sample(fmt("add la=%zu lb=%zu", la, lb));
-    VF_CHECK(ok, "add-mismatch", "pstm_add != mpz_add la=%zu lb=%zu", la, lb);
+typedef std::vector<uint64_t> Mag; // magnitude, little-endian 64-bit digits, no leading zero digit
+static const int MAXD = PSTM_MAX_SIZE; // 192
+static const int LIM = PSTM_MAX_SIZE - 2; // largest digit count of any exact result we ask for
+static bool g_fullcov = false;
+
+static_assert(sizeof(pstm_digit) == 8 && DIGIT_BIT == 64, "C13 harness expects 64-bit pstm digits");
+
+// ------------------------------------------------------------------ small RAII wrappers
+struct Z {
+    mpz_t v;
+    Z() { mpz_init(v); }
+    ~Z() { mpz_clear(v); }
+    Z(const Z &) = delete;
+    Z &operator=(const Z &) = delete;
+};
+struct P {
+    pstm_int v;
+    bool live;
+    P() : live(false) { memset(&v, 0, sizeof v); }
+    ~P() { if (live) pstm_clear(&v); }
+    P(const P &) = delete;
+    P &operator=(const P &) = delete;
+};
+
+static inline int imin(int a, int b) { return a < b ? a : b; }
+static inline int imax(int a, int b) { return a > b ? a : b; }
+
+// ------------------------------------------------------------------ case description
+enum { RND = 0, POW2, POW2M1, POW2P1, ONES, ALT0, ALT1, SPARSE, TOPONLY, SMALLTOP, EQ, DTOP, DBOT, N_CLS };
+static const char *CLSN[] = { "rnd", "pow2", "pow2m1", "pow2p1", "ones", "alt0", "alt1", "sparse", "toponly", "smalltop", "eq", "dtop", "dbot" };
+enum { AL_NONE = 0, AL_CA, AL_CB, AL_AB, AL_ALL, AL_OTHER };
+static const char *ALN[] = { "none", "out=a", "out=b", "a=b", "out=a=b", "other" };
+
+struct Case {
+    std::string op;
+    int m = -1, n = -1, k = -1; // digit counts of first / second / third operand (-1 = absent)
+    int ca = RND, cb = RND, cc = RND;
+    int sa = 0, sb = 0;
+    int alias = AL_NONE;
+    std::string extra;
+    bool edge = false; // some other structured edge (digit operand, shift count, ...) was used
+};
+static std::string descr(const Case &cs) {
+    std::string s = cs.op + fmt(" m=%d(%s%s)", cs.m, cs.sa ? "-" : "", CLSN[cs.ca]);
+    if (cs.n >= 0) s += fmt(" n=%d(%s%s)", cs.n, cs.sb ? "-" : "", CLSN[cs.cb]);
+    if (cs.k >= 0) s += fmt(" k=%d(%s)", cs.k, CLSN[cs.cc]);
+    s += fmt(" alias=%s", ALN[cs.alias]);
+    if (!cs.extra.empty()) s += " " + cs.extra;
+    return s;
 }
-VF_TARGET("C13.bignum", prop, 256, 0)
-namespace vf { void vf_global_init(int, char **) { psCryptoOpen(PSCRYPTO_CONFIG); } }
+static int bucket(int d) {
+    if (d < 0) return 15;
+    if (d <= 2) return d;
+    if (d <= 4) return 3;
+    if (d <= 8) return 4;
+    if (d <= 15) return 5;
+    if (d <= 17) return 6;
+    if (d <= 31) return 7;
+    if (d <= 34) return 8;
+    if (d <= 64) return 9;
+    return 10;
+}
+// Bookkeeping common to all ops: counters, non-trivial rule, sample.
+static void book(Ctx &c, const Case &cs) {
+    c.count("op:" + cs.op);
+    if (cs.n >= 0) {
+        if (cs.m <= 34 && cs.n <= 34) c.count(fmt("pair:%d:%d", cs.m, cs.n));
+        else c.count(cs.m > 64 || cs.n > 64 ? "pair:over64" : "pair:35-64");
+        c.count(fmt("n:%s:%d", cs.op.c_str(), cs.n <= 34 ? cs.n : cs.n <= 64 ? 64 : 192));
+        if (g_fullcov && cs.m <= 34 && cs.n <= 34) c.count(fmt("P:%s:%d:%d", cs.op.c_str(), cs.m, cs.n));
+    } else if (g_fullcov && cs.m <= 34) c.count(fmt("P:%s:%d", cs.op.c_str(), cs.m));
+    c.count(fmt("m:%s:%d", cs.op.c_str(), cs.m <= 34 ? cs.m : cs.m <= 64 ? 64 : 192));
+    c.count(std::string("cls:") + CLSN[cs.ca]);
+    if (cs.n >= 0) c.count(std::string("cls:") + CLSN[cs.cb]);
+    c.count(std::string("alias:") + ALN[cs.alias]);
+    if (cs.sa || cs.sb) c.count("signs:some-negative");
+    bool big = cs.m >= 2 && (cs.n < 0 || cs.n >= 2);
+    bool structured = cs.ca != RND || (cs.n >= 0 && cs.cb != RND) || (cs.k >= 0 && cs.cc != RND) || cs.alias != AL_NONE || cs.edge;
+    if (big && structured)
+        c.nontrivial(fmt("%s:%d:%d:%d:%d:%d:%d:%d", cs.op.c_str(), bucket(cs.m), bucket(cs.n), bucket(cs.k), cs.ca, cs.cb, cs.alias, cs.sa * 2 + cs.sb));
+    c.sample(descr(cs));
+}
+
+// ------------------------------------------------------------------ magnitudes
+static void trim(Mag &m) { while (!m.empty() && m.back() == 0) m.pop_back(); }
+static int cmp_mag(const Mag &a, const Mag &b) {
+    if (a.size() != b.size()) return a.size() < b.size() ? -1 : 1;
+    for (size_t i = a.size(); i-- > 0;)
+        if (a[i] != b[i]) return a[i] < b[i] ? -1 : 1;
+    return 0;
+}
+static void z_from_mag(mpz_t z, const Mag &m, int neg) {
+    mpz_import(z, m.size(), -1, 8, 0, 0, m.data());
+    if (neg) mpz_neg(z, z);
+}
+static void z_from_p(mpz_t z, const pstm_int *p) {
+    mpz_import(z, p->used, -1, 8, 0, 0, p->dp);
+    if (p->sign == PSTM_NEG) mpz_neg(z, z);
+}
+static Mag mag_from_z(const mpz_t z) {
+    size_t n = (mpz_sizeinbase(z, 2) + 63) / 64;
+    Mag m(n + 1, 0);
+    size_t cnt = 0;
+    mpz_export(m.data(), &cnt, -1, 8, 0, 0, z);
+    m.resize(cnt);
+    trim(m);
+    return m;
+}
+static std::string zhex(const mpz_t z) {
+    size_t n = mpz_sizeinbase(z, 16) + 2;
+    std::vector<char> b(n + 1);
+    mpz_get_str(b.data(), 16, z);
+    std::string s(b.data());
+    if (s.size() > 200) s = s.substr(0, 120) + "..." + s.substr(s.size() - 60) + fmt("[%zu hex digits]", s.size());
+    return s;
+}
+static uint64_t splitmix(uint64_t &s) {
+    s += 0x9E3779B97F4A7C15ULL;
+    uint64_t z = s;
+    z = (z ^ (z >> 30)) * 0xBF58476D1CE4E5B9ULL;
+    z = (z ^ (z >> 27)) * 0x94D049BB133111EBULL;
+    return z ^ (z >> 31);
+}
+// Digit source: the first 36 digits of an operand come straight from the tape (so they shrink well),
+// further digits are a deterministic expansion of 8 more tape bytes.
+struct Src {
+    Tape &t; int direct; uint64_t seed; bool seeded;
+    explicit Src(Tape &tt) : t(tt), direct(0), seed(0), seeded(false) {}
+    uint64_t next() {
+        if (direct < 36) { direct++; return t.u64(); }
+        if (!seeded) { seed = t.u64(); seeded = true; }
+        return splitmix(seed);
+    }
+};
+static Mag cheap_mag(Tape &t, int nd) { // pseudo-random magnitude from 4 tape bytes
+    Mag m((size_t) imax(nd, 0), 0);
+    uint64_t s = t.u32();
+    for (int i = 0; i < nd; i++) m[i] = splitmix(s);
+    if (nd > 0 && m[nd - 1] == 0) m[nd - 1] = 1;
+    return m;
+}
+
+// value of exactly nd digits (top digit non-zero) of class cls; relation classes need other->size()==nd
+static Mag gen_mag(Tape &t, int nd, int &cls, const Mag *other) {
+    Mag m;
+    if (nd <= 0) { if (cls >= EQ) cls = RND; return m; }
+    if (cls >= EQ && (!other || (int) other->size() != nd)) cls = RND;
+    Src s(t);
+    m.assign(nd, 0);
+    switch (cls) {
+    case POW2: m[nd - 1] = 1ULL << t.below(64); break;
+    case POW2M1: {
+        unsigned k = (unsigned) t.below(64);
+        for (int i = 0; i < nd - 1; i++) m[i] = ~0ULL;
+        m[nd - 1] = k == 63 ? ~0ULL : ((1ULL << (k + 1)) - 1);
+        break;
+    }
+    case POW2P1: {
+        unsigned k = (unsigned) t.below(64);
+        m[nd - 1] = 1ULL << k;
+        if (nd == 1 && k == 0) m[0] = 2; else m[0] |= 1;
+        break;
+    }
+    case ONES: for (int i = 0; i < nd; i++) m[i] = ~0ULL; break;
+    case ALT0: for (int i = 0; i < nd; i++) m[i] = ((nd - 1 - i) & 1) ? 0 : ~0ULL; break;
+    case ALT1: for (int i = 0; i < nd; i++) m[i] = ((nd - 1 - i) & 1) ? ~0ULL : 0; m[nd - 1] = 1; break;
+    case SPARSE:
+        for (int i = 0; i < nd; i++) {
+            uint64_t r = s.next();
+            switch (r & 7) {
+            case 0: case 1: m[i] = 0; break;
+            case 2: m[i] = ~0ULL; break;
+            case 3: m[i] = 1; break;
+            case 4: m[i] = 1ULL << 63; break;
+            case 5: m[i] = 0xffffffffULL; break;
+            case 6: m[i] = 0xffffffff00000000ULL; break;
+            default: m[i] = r >> 3; break;
+            }
+        }
+        break;
+    case TOPONLY: m[nd - 1] = s.next(); break;
+    case SMALLTOP: for (int i = 0; i < nd; i++) m[i] = s.next(); m[nd - 1] = 1; break;
+    case EQ: m = *other; break;
+    case DTOP: case DBOT: {
+        m = *other;
+        int idx = cls == DTOP ? nd - 1 : 0;
+        uint64_t o = m[idx], v;
+        unsigned r = (unsigned) t.below(3);
+        v = r == 0 ? o + 1 : r == 1 ? o - 1 : (o ^ (1ULL << t.below(64)));
+        if (idx == nd - 1 && v == 0) v = (o + 1 != 0) ? o + 1 : o - 1; // keep the top digit non-zero
+        if (v == o) v = o ^ 2;
+        if (idx == nd - 1 && v == 0) v = o ^ 4;
+        m[idx] = v;
+        break;
+    }
+    default: for (int i = 0; i < nd; i++) m[i] = s.next(); break;
+    }
+    if (m[nd - 1] == 0) m[nd - 1] = 1;
+    return m;
+}
+static int pick_cls(Tape &t, bool rel) {
+    unsigned r = (unsigned) t.below(32);
+    static const int structured[12] = { POW2, POW2M1, POW2P1, ONES, ALT0, ALT1, SPARSE, TOPONLY, SMALLTOP, ONES, POW2M1, ALT0 };
+    static const int relation[6] = { EQ, EQ, DTOP, DTOP, DBOT, DBOT };
+    if (r < 10) return RND;
+    if (r < 22) return structured[r - 10];
+    if (r < 28) return rel ? relation[r - 22] : structured[(r - 22) * 2];
+    return RND;
+}
+// digit count: 11/16 uniform 0..34 (every pair), 3/16 35..70, 2/16 uniform up to maxnd
+static int pick_nd(Tape &t, int maxnd) {
+    unsigned r = (unsigned) t.below(16);
+    int v;
+    if (r < 11) v = (int) t.below(35);
+    else if (r < 14) v = 35 + (int) t.below(36);
+    else v = (int) t.below((uint64_t) maxnd + 1);
+    return v > maxnd ? maxnd : v;
+}
+static pstm_digit pick_digit(Tape &t, bool *edge) {
+    unsigned r = (unsigned) t.below(8);
+    if (edge) *edge = (r >= 1 && r <= 6);
+    switch (r) {
+    case 1: return 0;
+    case 2: return 1;
+    case 3: return ~0ULL;
+    case 4: return 1ULL << 63;
+    case 5: return t.u8();
+    case 6: return 2;
+    default: return t.u64();
+    }
+}
+static int pick_alias3(Tape &t) { // for c = a op b
+    static const int tab[8] = { AL_NONE, AL_NONE, AL_NONE, AL_CA, AL_CB, AL_AB, AL_ALL, AL_CA };
+    return tab[t.below(8)];
+}
+
+// ------------------------------------------------------------------ pstm_int construction
+static void mk(P &p, const Mag &m, int neg, unsigned amode) {
+    int used = (int) m.size(), a;
+    switch (amode % 5) {
+    case 0: a = used; break;
+    case 1: a = used + 1; break;
+    case 2: a = used + 2; break; // what pstm_init_for_read_unsigned_bin gives
+    case 3: a = 2 * used + 3; break; // what pstm_init_copy(toSqr) gives
+    default: a = used < 48 ? 48 : used + 4; break; // pstm_init default
+    }
+    if (a < 1) a = 1;
+    if (a > MAXD) a = MAXD;
+    VF_CHECK(used <= MAXD, "harness-bug", "operand of %d digits", used);
+    VF_CHECK(pstm_init_size(NULL, &p.v, (psSize_t) a) == PSTM_OKAY, "harness-init", "pstm_init_size(%d) failed", a);
+    p.live = true;
+    for (int i = 0; i < used; i++) p.v.dp[i] = m[i];
+    p.v.used = (uint16_t) used;
+    p.v.sign = (neg && used) ? PSTM_NEG : PSTM_ZPOS;
+}
+// an output variable in one of the states callers have them in: fresh minimal, fresh default, or holding an old value
+static void mk_out(P &p, Tape &t, bool allow_neg) {
+    unsigned s = (unsigned) t.below(6);
+    if (s == 0) { Mag z; mk(p, z, 0, 0); return; }
+    if (s == 1) { VF_CHECK(pstm_init(NULL, &p.v) == PSTM_OKAY, "harness-init", "pstm_init"); p.live = true; return; }
+    int nd = t.below(3) == 0 ? (int) t.below(80) : (int) t.below(36);
+    Mag g = cheap_mag(t, nd);
+    mk(p, g, allow_neg && t.coin(), (unsigned) t.below(3));
+}
+
+// ------------------------------------------------------------------ checks
+static void inv(Ctx &c, const pstm_int *p, const Case &cs, const char *which) {
+    VF_CHECK(p->dp != NULL, cs.op + "-invariant", "%s: %s has NULL dp", descr(cs).c_str(), which);
+    VF_CHECK(p->used <= p->alloc, cs.op + "-invariant", "%s: %s used=%u > alloc=%u", descr(cs).c_str(), which, (unsigned) p->used, (unsigned) p->alloc);
+    VF_CHECK(p->alloc <= MAXD, cs.op + "-invariant", "%s: %s alloc=%u > PSTM_MAX_SIZE", descr(cs).c_str(), which, (unsigned) p->alloc);
+    VF_CHECK(p->used == 0 || p->dp[p->used - 1] != 0, cs.op + "-invariant", "%s: %s top digit is zero (used=%u)", descr(cs).c_str(), which, (unsigned) p->used);
+    VF_CHECK(p->sign == PSTM_ZPOS || p->sign == PSTM_NEG, cs.op + "-invariant", "%s: %s sign=%u", descr(cs).c_str(), which, (unsigned) p->sign);
+    VF_CHECK(p->used != 0 || p->sign == PSTM_ZPOS, cs.op + "-invariant", "%s: %s is a negative zero", descr(cs).c_str(), which);
+    for (unsigned i = p->used; i < p->alloc; i++)
+        if (p->dp[i] != 0) { c.count("info:nonzero-digit-above-used:" + cs.op); break; }
+}
+static void expect(Ctx &c, const pstm_int *r, const mpz_t want, const Case &cs, const char *which = "result") {
+    inv(c, r, cs, which);
+    Z got;
+    z_from_p(got.v, r);
+    if (mpz_cmp(got.v, want) != 0)
+        VF_FAIL(cs.op + "-mismatch", "%s: %s got=%s want=%s", descr(cs).c_str(), which, zhex(got.v).c_str(), zhex(want).c_str());
+}
+static void unchanged(Ctx &c, const pstm_int *p, const Mag &m, int neg, const Case &cs, const char *which) {
+    inv(c, p, cs, which);
+    bool same = p->used == m.size() && ((p->sign == PSTM_NEG) == (neg && !m.empty()));
+    for (size_t i = 0; same && i < m.size(); i++) same = p->dp[i] == m[i];
+    VF_CHECK(same, cs.op + "-input-clobbered", "%s: input %s was modified", descr(cs).c_str(), which);
+}
+static void okay(int32_t rc, const Case &cs, const char *fn = "") {
+    VF_CHECK(rc == PSTM_OKAY, cs.op + "-error-in-domain", "%s: %s returned %d inside its domain", descr(cs).c_str(), fn, (int) rc);
+}
+// Use a verified result as the in/out operand of an aliased add with a longer addend, the way ecc_math.c does
+// (pstm_add(&x, modulus, &x)); a digit left non-zero above 'used' by the previous operation corrupts this sum.
+static void poke(Tape &t, Ctx &c, pstm_int *r, const Case &cs) {
+    if (t.below(4) != 0) return;
+    int nd = r->used + 1 + (int) t.below(3);
+    if (nd > LIM) return;
+    Z before, w, want;
+    z_from_p(before.v, r);
+    Mag wm = cheap_mag(t, nd);
+    P W;
+    mk(W, wm, 0, 1);
+    z_from_mag(w.v, wm, 0);
+    mpz_add(want.v, before.v, w.v);
+    int32_t rc = pstm_add(r, &W.v, r);
+    c.count("followup-add");
+    VF_CHECK(rc == PSTM_OKAY, cs.op + "-followup-add", "%s: follow-up pstm_add returned %d", descr(cs).c_str(), (int) rc);
+    inv(c, r, cs, "follow-up sum");
+    Z got;
+    z_from_p(got.v, r);
+    if (mpz_cmp(got.v, want.v) != 0)
+        VF_FAIL(cs.op + "-followup-add", "%s: result + w (aliased) got=%s want=%s", descr(cs).c_str(), zhex(got.v).c_str(), zhex(want.v).c_str());
+}
+
+// ------------------------------------------------------------------ real moduli
+struct Real { const char *name; Mag m; };
+static std::vector<Real> g_real; // curve primes and group orders (all odd primes)
+static void add_real(const char *name, const char *hex) {
+    Z z;
+    mpz_set_str(z.v, hex, 16);
+    g_real.push_back(Real{ name, mag_from_z(z.v) });
+}
+static void init_real() {
+    add_real("p192", "FFFFFFFFFFFFFFFFFFFFFFFFFFFFFFFEFFFFFFFFFFFFFFFF");
+    add_real("n192", "FFFFFFFFFFFFFFFFFFFFFFFF99DEF836146BC9B1B4D22831");
+    add_real("p224", "FFFFFFFFFFFFFFFFFFFFFFFFFFFFFFFF000000000000000000000001");
+    add_real("n224", "FFFFFFFFFFFFFFFFFFFFFFFFFFFF16A2E0B8F03E13DD29455C5C2A3D");
+    add_real("p256", "FFFFFFFF00000001000000000000000000000000FFFFFFFFFFFFFFFFFFFFFFFF");
+    add_real("n256", "FFFFFFFF00000000FFFFFFFFFFFFFFFFBCE6FAADA7179E84F3B9CAC2FC632551");
+    add_real("p384", "FFFFFFFFFFFFFFFFFFFFFFFFFFFFFFFFFFFFFFFFFFFFFFFFFFFFFFFFFFFFFFFEFFFFFFFF0000000000000000FFFFFFFF");
+    add_real("n384", "FFFFFFFFFFFFFFFFFFFFFFFFFFFFFFFFFFFFFFFFFFFFFFFFC7634D81F4372DDF581A0DB248B0A77AECEC196ACCC52973");
+    add_real("p521", "1FFFFFFFFFFFFFFFFFFFFFFFFFFFFFFFFFFFFFFFFFFFFFFFFFFFFFFFFFFFFFFFFFFFFFFFFFFFFFFFFFFFFFFFFFFFFFFFFFFFFFFFFFFFFFFFFFFFFFFFFFFFFFFFFFFFF");
+    add_real("n521", "1FFFFFFFFFFFFFFFFFFFFFFFFFFFFFFFFFFFFFFFFFFFFFFFFFFFFFFFFFFFFFFFFFA51868783BF2F966B7FCC0148F709A5D03BB5C9B8899C47AEBB6FB71E91386409");
+    add_real("bp224", "D7C134AA264366862A18302575D1D787B09F075797DA89F57EC8C0FF");
+    add_real("bp256", "A9FB57DBA1EEA9BC3E660A909D838D726E3BF623D52620282013481D1F6E5377");
+    add_real("bp384", "8CB91E82A3386D280F5D6F7E50E641DF152F7109ED5456B412B1DA197FB71123ACD3A729901D1A71874700133107EC53");
+    add_real("bp512", "AADD9DB8DBE9C48B3FD4E6AE33C9FC07CB308DB3B3C9D20ED6639CCA703308717D4D9B009BC66842AECDA12AE6A380E62881FF2F2D82C68528AA6056583A48F3");
+    add_real("bn512", "AADD9DB8DBE9C48B3FD4E6AE33C9FC07CB308DB3B3C9D20ED6639CCA70330870553E5C414CA92619418661197FAC10471DB1D381085DDADDB58796829CA90069");
+    add_real("p25519", "7FFFFFFFFFFFFFFFFFFFFFFFFFFFFFFFFFFFFFFFFFFFFFFFFFFFFFFFFFFFFFFFED");
+}
+// RSA-size primes, computed once per process on first use (deterministic: fixed start values, GMP's nextprime)
+static const Mag &rsa_prime(int bits, int which) {
+    static std::map<int, Mag> cache;
+    int key = bits * 2 + which;
+    auto it = cache.find(key);
+    if (it != cache.end()) return it->second;
+    Z z, u;
+    mpz_set_ui(z.v, 3);
+    mpz_mul_2exp(z.v, z.v, bits - 2); // 2^(bits-1) + 2^(bits-2): products of two such primes have exactly 2*bits bits
+    mpz_set_ui(u.v, which ? 0xC13C13ULL : 0x13C0FFEEULL);
+    mpz_mul_2exp(u.v, u.v, bits / 2);
+    mpz_add(z.v, z.v, u.v);
+    mpz_nextprime(z.v, z.v);
+    return cache[key] = mag_from_z(z.v);
+}
+static Mag rsa_modulus(int bits) { // N = p*q with exactly 'bits' bits
+    Z p, q;
+    z_from_mag(p.v, rsa_prime(bits / 2, 0), 0);
+    z_from_mag(q.v, rsa_prime(bits / 2, 1), 0);
+    mpz_mul(p.v, p.v, q.v);
+    return mag_from_z(p.v);
+}
+
+enum { MK_ANY = 0, MK_ODD, MK_EVEN, MK_REAL, MK_RSAPRIME, N_MK };
+static const char *MKN[] = { "any", "odd", "even", "real", "rsaprime" };
+// modulus of about nd digits (>= 1 digit, value >= minval); need_odd forces an odd result
+static Mag gen_modulus(Tape &t, int nd, bool need_odd, uint64_t minval, Case &cs) {
+    unsigned r = (unsigned) t.below(16);
+    int kind = r < 6 ? MK_ANY : r < 9 ? MK_ODD : r < 11 ? MK_EVEN : r < 15 ? MK_REAL : MK_RSAPRIME;
+    if (need_odd && kind == MK_EVEN) kind = MK_ODD;
+    Mag m;
+    if (nd < 1) nd = 1;
+    if (kind == MK_REAL) {
+        const Real &R = g_real[t.below(g_real.size())];
+        m = R.m;
+        cs.extra += std::string(" mod=") + R.name;
+    } else if (kind == MK_RSAPRIME) {
+        static const int sizes[4] = { 512, 512, 1024, 2048 };
+        int b = sizes[t.below(4)];
+        m = rsa_prime(b, (int) t.below(2));
+        cs.extra += fmt(" mod=rsaprime%d", b);
+    } else {
+        int cls = pick_cls(t, false);
+        m = gen_mag(t, nd, cls, NULL);
+        if (kind == MK_ODD || need_odd) m[0] |= 1;
+        if (kind == MK_EVEN) { m[0] &= ~1ULL; if (m.back() == 0) m.back() = 2; }
+        cs.cc = cls;
+        cs.extra += std::string(" mod=") + MKN[kind];
+    }
+    trim(m);
+    if (m.empty() || (m.size() == 1 && m[0] < minval)) { m.assign(1, minval | (need_odd ? 1 : 0)); }
+    return m;
+}
+
+// ------------------------------------------------------------------ add / sub / sub_s
+// In-tree: ecc_math.c (out=a, out=a=b, a=b, separate), ecc_priv.c:227 (out=b), rsa.c, pkcs.c; both signs occur
+// (pstm_sub results are negative before the "add modulus" fix-up).  pstm_sub_s: unsigned, |a| >= |b| ("ALWAYS").
+static void op_addsub(Tape &t, Ctx &c, int kind) {
+    Case cs;
+    cs.op = kind == 0 ? "add" : kind == 1 ? "sub" : "sub_s";
+    int m = pick_nd(t, LIM - 1), n = pick_nd(t, LIM - 1);
+    cs.ca = pick_cls(t, false);
+    Mag A = gen_mag(t, m, cs.ca, NULL);
+    cs.cb = pick_cls(t, true);
+    if (cs.cb >= EQ && m > 0) n = m;
+    Mag B = gen_mag(t, n, cs.cb, &A);
+    cs.sa = kind != 2 && t.below(4) == 0;
+    cs.sb = kind != 2 && t.below(4) == 0;
+    cs.alias = pick_alias3(t);
+    if (cs.alias == AL_AB || cs.alias == AL_ALL) { B = A; cs.sb = cs.sa; cs.cb = A.empty() ? RND : EQ; }
+    if (kind == 2 && cmp_mag(A, B) < 0) { A.swap(B); int x = cs.ca; cs.ca = cs.cb; cs.cb = x; }
+    if (A.empty()) cs.sa = 0;
+    if (B.empty()) cs.sb = 0;
+    cs.m = (int) A.size(); cs.n = (int) B.size();
+    unsigned am = (unsigned) t.below(5), bm = (unsigned) t.below(5);
+    P pa, pb, pc;
+    mk(pa, A, cs.sa, am);
+    pstm_int *a = &pa.v, *b = a, *o;
+    if (!(cs.alias == AL_AB || cs.alias == AL_ALL)) { mk(pb, B, cs.sb, bm); b = &pb.v; }
+    if (cs.alias == AL_CA || cs.alias == AL_ALL) o = a;
+    else if (cs.alias == AL_CB) o = b;
+    else { mk_out(pc, t, kind != 2); o = &pc.v; }
+    book(c, cs);
+    Z za, zb, want;
+    z_from_mag(za.v, A, cs.sa); z_from_mag(zb.v, B, cs.sb);
+    int32_t rc;
+    if (kind == 0) { mpz_add(want.v, za.v, zb.v); rc = pstm_add(a, b, o); }
+    else { mpz_sub(want.v, za.v, zb.v); rc = kind == 1 ? pstm_sub(a, b, o) : pstm_sub_s(a, b, o); }
+    okay(rc, cs);
+    if (kind == 2) { // unsigned: only the magnitude is defined, the sign field of c is not written
+        inv(c, o, cs, "result");
+        Z got; mpz_import(got.v, o->used, -1, 8, 0, 0, o->dp);
+        if (mpz_cmp(got.v, want.v) != 0) VF_FAIL("sub_s-mismatch", "%s: got=%s want=%s", descr(cs).c_str(), zhex(got.v).c_str(), zhex(want.v).c_str());
+    } else expect(c, o, want.v, cs);
+    if (o != a) unchanged(c, a, A, cs.sa, cs, "a");
+    if (o != b && b != a) unchanged(c, b, B, cs.sb, cs, "b");
+    // algebraic second net (no GMP): (a+b)-b == a, (a-b)+b == a
+    if (kind != 2 && o != a && o != b && t.below(4) == 0) {
+        P back; mk_out(back, t, true);
+        rc = kind == 0 ? pstm_sub(o, b, &back.v) : pstm_add(o, b, &back.v);
+        VF_CHECK(rc == PSTM_OKAY && pstm_cmp(&back.v, a) == PSTM_EQ, "algebra-add-sub-roundtrip", "%s: (a%cb)%cb != a (rc=%d)", descr(cs).c_str(), kind == 0 ? '+' : '-', kind == 0 ? '-' : '+', (int) rc);
+        c.count("algebra:add-sub-roundtrip");
+    }
+    if (kind != 2 || o->sign == PSTM_ZPOS) poke(t, c, o, cs);
+}
+
+// ------------------------------------------------------------------ add_d / sub_d / mul_d / cmp_d
+// In-tree: dh_gen_secret.c:90 (add_d, separate out), read_radix (mul_d and add_d with out=a), pstm_div (mul_d).
+static void op_digit(Tape &t, Ctx &c, int kind) {
+    Case cs;
+    cs.op = kind == 0 ? "add_d" : kind == 1 ? "sub_d" : "mul_d";
+    int m = pick_nd(t, LIM - 1);
+    cs.ca = pick_cls(t, false);
+    Mag A = gen_mag(t, m, cs.ca, NULL);
+    cs.m = m;
+    cs.sa = m > 0 && t.below(4) == 0;
+    bool edge; pstm_digit d = pick_digit(t, &edge);
+    cs.edge = edge;
+    cs.alias = t.below(3) == 0 ? AL_CA : AL_NONE;
+    cs.extra = fmt("d=%llx", (unsigned long long) d);
+    P pa, pc;
+    mk(pa, A, cs.sa, (unsigned) t.below(5));
+    pstm_int *a = &pa.v, *o = a;
+    if (cs.alias == AL_NONE) { mk_out(pc, t, true); o = &pc.v; }
+    book(c, cs);
+    Z za, zd, want;
+    z_from_mag(za.v, A, cs.sa);
+    mpz_import(zd.v, 1, -1, 8, 0, 0, &d);
+    int32_t rc;
+    if (kind == 0) { mpz_add(want.v, za.v, zd.v); rc = pstm_add_d(NULL, a, d, o); }
+    else if (kind == 1) { mpz_sub(want.v, za.v, zd.v); rc = pstm_sub_d(NULL, a, d, o); }
+    else { mpz_mul(want.v, za.v, zd.v); rc = pstm_mul_d(a, d, o); }
+    okay(rc, cs);
+    expect(c, o, want.v, cs);
+    if (o != a) unchanged(c, a, A, cs.sa, cs, "a");
+    poke(t, c, o, cs);
+}
+
+// ------------------------------------------------------------------ mul_comba / sqr_comba
+// In-tree: ecc_math.c (C=A, C=B, separate, paD of (2*modulus.used+1) digits), rsa.c:293 (C=A, paD NULL), mulmod (paD NULL),
+// exptmod.  Signs: C.sign = A.sign ^ B.sign.  sqr_comba does not write the sign: callers only square non-negative values
+// into non-negative variables.
+static void op_mul(Tape &t, Ctx &c, bool sqr) {
+    Case cs;
+    cs.op = sqr ? "sqr_comba" : "mul_comba";
+    int m = pick_nd(t, 95), n = sqr ? -1 : pick_nd(t, 95);
+    cs.ca = pick_cls(t, false);
+    Mag A = gen_mag(t, m, cs.ca, NULL), B;
+    if (!sqr) {
+        cs.cb = pick_cls(t, true);
+        if (cs.cb >= EQ && m > 0) n = m;
+        B = gen_mag(t, n, cs.cb, &A);
+        cs.sa = m > 0 && t.below(5) == 0;
+        cs.sb = n > 0 && t.below(5) == 0;
+        cs.alias = pick_alias3(t);
+        if (cs.alias == AL_AB || cs.alias == AL_ALL) { B = A; cs.sb = cs.sa; cs.cb = A.empty() ? RND : EQ; n = m; }
+    } else {
+        B = A;
+        cs.alias = t.below(3) == 0 ? AL_CA : AL_NONE;
+    }
+    cs.m = m; cs.n = n;
+    int pa_digits = (int) A.size() + (int) B.size();
+    P pa, pb, pc;
+    mk(pa, A, cs.sa, (unsigned) t.below(5));
+    pstm_int *a = &pa.v, *b = a, *o;
+    if (!sqr && !(cs.alias == AL_AB || cs.alias == AL_ALL)) { mk(pb, B, cs.sb, (unsigned) t.below(5)); b = &pb.v; }
+    if (cs.alias == AL_CA || cs.alias == AL_ALL) o = a;
+    else if (cs.alias == AL_CB) o = b;
+    else { mk_out(pc, t, !sqr); o = &pc.v; }
+    // scratch buffer the way callers pass it: none, exactly big enough, bigger, or too small (fallback to malloc)
+    unsigned pm = (unsigned) t.below(4);
+    std::vector<pstm_digit> pad;
+    pstm_digit *paD = NULL; psSize_t paDlen = 0;
+    if (pm == 1) pad.assign((size_t) imax(pa_digits, 1), 0xA5A5A5A5A5A5A5A5ULL);
+    else if (pm == 2) pad.assign((size_t) (2 * imax((int) A.size(), (int) B.size()) + 1 + (int) t.below(4)), 0xA5A5A5A5A5A5A5A5ULL);
+    else if (pm == 3) pad.assign((size_t) imax(pa_digits - 1 - (int) t.below(3), 1), 0xA5A5A5A5A5A5A5A5ULL);
+    if (pm) { paD = pad.data(); paDlen = (psSize_t) (pad.size() * sizeof(pstm_digit)); }
+    cs.extra = fmt("paD=%u", pm);
+    book(c, cs);
+    c.count(fmt("paD-mode:%u", pm));
+    Z za, zb, want;
+    z_from_mag(za.v, A, cs.sa); z_from_mag(zb.v, B, sqr ? cs.sa : cs.sb);
+    mpz_mul(want.v, za.v, zb.v);
+    int32_t rc = sqr ? pstm_sqr_comba(NULL, a, o, paD, paDlen) : pstm_mul_comba(NULL, a, b, o, paD, paDlen);
+    okay(rc, cs);
+    expect(c, o, want.v, cs);
+    if (o != a) unchanged(c, a, A, cs.sa, cs, "a");
+    if (!sqr && o != b && b != a) unchanged(c, b, B, cs.sb, cs, "b");
+    // second net: sqr(a) == mul(a,a); mul(a,b) == mul(b,a)
+    if (o != a && o != b && t.below(4) == 0) {
+        P x; mk_out(x, t, true);
+        rc = sqr ? pstm_mul_comba(NULL, a, a, &x.v, NULL, 0) : pstm_mul_comba(NULL, b, a, &x.v, NULL, 0);
+        VF_CHECK(rc == PSTM_OKAY && pstm_cmp(&x.v, o) == PSTM_EQ, sqr ? "algebra-sqr-vs-mul" : "algebra-mul-commutes", "%s (rc=%d)", descr(cs).c_str(), (int) rc);
+        c.count(sqr ? "algebra:sqr-vs-mul" : "algebra:mul-commutes");
+    }
+    poke(t, c, o, cs);
+}
+
+// ------------------------------------------------------------------ mul_2 / div_2 / div_2d
+// In-tree: ecc_math.c pstm_div_2(&y,&y) on even non-negative values; invmod halves even values of both signs in place;
+// calc_normalization doubles in place; pstm_div and to_unsigned_bin use div_2d in place with d == NULL.
+static void op_shift1(Tape &t, Ctx &c, bool mul) {
+    Case cs;
+    cs.op = mul ? "mul_2" : "div_2";
+    int m = pick_nd(t, LIM - 1);
+    cs.ca = pick_cls(t, false);
+    Mag A = gen_mag(t, m, cs.ca, NULL);
+    cs.m = m;
+    cs.sa = m > 0 && t.below(4) == 0;
+    cs.alias = t.below(2) == 0 ? AL_CA : AL_NONE;
+    P pa, pc;
+    mk(pa, A, cs.sa, (unsigned) t.below(5));
+    pstm_int *a = &pa.v, *o = a;
+    if (cs.alias == AL_NONE) { mk_out(pc, t, true); o = &pc.v; }
+    book(c, cs);
+    Z za, want, want2;
+    z_from_mag(za.v, A, cs.sa);
+    int32_t rc;
+    if (mul) { mpz_mul_2exp(want.v, za.v, 1); rc = pstm_mul_2(a, o); okay(rc, cs); expect(c, o, want.v, cs); }
+    else {
+        mpz_tdiv_q_2exp(want.v, za.v, 1); mpz_fdiv_q_2exp(want2.v, za.v, 1);
+        rc = pstm_div_2(a, o); okay(rc, cs);
+        Z got; inv(c, o, cs, "result"); z_from_p(got.v, o);
+        if (mpz_cmp(got.v, want.v) != 0 && mpz_cmp(got.v, want2.v) != 0)
+            VF_FAIL("div_2-mismatch", "%s: got=%s want=%s", descr(cs).c_str(), zhex(got.v).c_str(), zhex(want.v).c_str());
+    }
+    if (o != a) unchanged(c, a, A, cs.sa, cs, "a");
+    if (mul && o != a && t.below(4) == 0) { // mul_2(a) == a + a, div_2(mul_2(a)) == a
+        P s, h; mk_out(s, t, true); mk_out(h, t, true);
+        VF_CHECK(pstm_add(a, a, &s.v) == PSTM_OKAY && pstm_cmp(&s.v, o) == PSTM_EQ, "algebra-mul2-vs-add", "%s", descr(cs).c_str());
+        VF_CHECK(pstm_div_2(o, &h.v) == PSTM_OKAY && pstm_cmp(&h.v, a) == PSTM_EQ, "algebra-mul2-div2-roundtrip", "%s", descr(cs).c_str());
+        c.count("algebra:mul2");
+    }
+    poke(t, c, o, cs);
+}
+static void op_div_2d(Tape &t, Ctx &c) {
+    Case cs;
+    cs.op = "div_2d";
+    int m = pick_nd(t, LIM);
+    cs.ca = pick_cls(t, false);
+    Mag A = gen_mag(t, m, cs.ca, NULL);
+    cs.m = m;
+    cs.sa = m > 0 && t.below(6) == 0;
+    unsigned bs = (unsigned) t.below(8);
+    int bits = bs == 0 ? 0 : bs == 1 ? 64 * (int) t.below((uint64_t) m + 2) : bs == 2 ? 8 : (int) t.below((uint64_t) 64 * m + 70);
+    cs.edge = bs <= 2;
+    unsigned am = (unsigned) t.below(6); // 0,1: c=a d=NULL (in-tree) 2: c=a,d sep 3: c sep,d NULL 4: both sep 5: c sep, d=a
+    cs.alias = am <= 2 ? AL_CA : am == 5 ? AL_OTHER : AL_NONE;
+    cs.extra = fmt("bits=%d mode=%u", bits, am);
+    P pa, pc, pd;
+    mk(pa, A, cs.sa, (unsigned) t.below(5));
+    pstm_int *a = &pa.v, *q = a, *r = NULL;
+    if (am >= 3) { mk_out(pc, t, true); q = &pc.v; }
+    if (am == 2 || am == 4) { mk_out(pd, t, true); r = &pd.v; }
+    if (am == 5) r = a;
+    book(c, cs);
+    Z za, tq, tr, fq, fr;
+    z_from_mag(za.v, A, cs.sa);
+    mpz_tdiv_q_2exp(tq.v, za.v, bits); mpz_tdiv_r_2exp(tr.v, za.v, bits);
+    mpz_fdiv_q_2exp(fq.v, za.v, bits); mpz_fdiv_r_2exp(fr.v, za.v, bits);
+    int32_t rc = pstm_div_2d(NULL, a, (int16_t) bits, q, r);
+    okay(rc, cs);
+    inv(c, q, cs, "quotient");
+    Z gq, gr;
+    z_from_p(gq.v, q);
+    bool tok = mpz_cmp(gq.v, tq.v) == 0, fok = mpz_cmp(gq.v, fq.v) == 0;
+    if (r) {
+        inv(c, r, cs, "remainder");
+        z_from_p(gr.v, r);
+        tok = tok && mpz_cmp(gr.v, tr.v) == 0; fok = fok && mpz_cmp(gr.v, fr.v) == 0;
+    }
+    if (!tok && !fok)
+        VF_FAIL("div_2d-mismatch", "%s: q=%s r=%s want q=%s r=%s", descr(cs).c_str(), zhex(gq.v).c_str(), r ? zhex(gr.v).c_str() : "-", zhex(tq.v).c_str(), zhex(tr.v).c_str());
+    if (q != a && r != a) unchanged(c, a, A, cs.sa, cs, "a");
+    poke(t, c, q, cs);
+}
